@@ -250,3 +250,129 @@ def c02_3(I, shape):
     I.check(AND(k < n, data[k] == ctype, ctype != 0,
                 AND([data[j] == 0 for j in range(k + 1, n)]),
                 seq_eq(out, data[:k])), "depad-splits-at-last-nonzero")
+
+
+# ---------------------------------------------------------------------------
+# C02.4  early-data tolerance ends with the first accepted record
+# ---------------------------------------------------------------------------
+from models.conn import conn_proxies, make_conn, split_records, CONN_ASSUMES
+from obl.C17 import _run as _run_gen
+from tlslite.constants import (HandshakeType, AlertDescription, AlertLevel)
+from tlslite.errors import (TLSLocalAlert, TLSAlert, TLSAbruptCloseError)
+from symx.core import PathAbort, Unsupported
+
+SEQS = ["F A B", "A F", "A C F", "C F A B", "A C B", "F F A B", "A B F",
+        "C A C F", "F C A B"]
+
+
+def _shapes_c02_4(tier):
+    out = []
+    for seq in SEQS:
+        for limit in ("roomy", "tight"):
+            out.append(dict(seq=seq, limit=limit))
+    return out
+
+
+@obligation("C02.4", _shapes_c02_4,
+            functions=["tlslite.tlsrecordlayer:TLSRecordLayer._getNextRecord",
+                       "tlslite.tlsrecordlayer:TLSRecordLayer."
+                       "_getNextRecordFromSocket",
+                       "tlslite.tlsrecordlayer:TLSRecordLayer._getMsg",
+                       "tlslite.recordlayer:RecordLayer.recvRecord",
+                       "tlslite.recordlayer:RecordLayer.early_data_ok",
+                       "tlslite.defragmenter:Defragmenter"],
+            assumes=CONN_ASSUMES + [
+                "TLS 1.3 server connection with the AEAD model installed as "
+                "read state (unforgeability: a tag verifies only for what "
+                "the sender sealed) and the early-data tolerance armed "
+                "(early_data_ok, max_early_data = 64 or 24); the wire is a "
+                "sequence over A/B = the two halves of a genuine protected "
+                "Finished message, C = a plaintext ChangeCipherSpec record, "
+                "F = a record of 20 symbolic bytes that is not one of the "
+                "sender's"],
+            patches=lambda s: (conn_proxies(), []), max_paths=2000,
+            also=("C06",))
+def c02_4(I, shape):
+    """records that fail authentication are skipped only before the first
+    record was accepted and within max_early_data; after that - also across
+    an interleaved ChangeCipherSpec or between handshake fragments - a
+    non-authenticating record is a fatal bad_record_mac"""
+    words = shape["seq"].split()
+    maxed = 64 if shape["limit"] == "roomy" else 24
+    conn, sock = make_conn((3, 4), False, [], session=False)
+    rcv = conn._recordLayer
+    nonce = I.bytes(12, "fixednonce")
+    install_state(rcv, rcv._readState, "tls13", "k", 0, 16,
+                  fixed_nonce=nonce)
+    ss, snd = make_layer((3, 4), "tls13")
+    install_state(snd, snd._writeState, "tls13", "k", 0, 16,
+                  fixed_nonce=nonce)
+    rcv.early_data_ok = True
+    rcv.max_early_data = maxed
+    vd = I.bytes(32, "verify_data")
+    fin = [HandshakeType.finished, 0, 0, 32] + list(vd)
+    halves = {"A": fin[:10], "B": fin[10:]}
+    wire = []
+    forged = []
+    for w in words:
+        if w in ("A", "B"):
+            before = len(ss.out)
+            drain(snd.sendRecord(Message(ContentType.handshake,
+                                         newbuf(halves[w]))))
+            wire += list(ss.out)[before:]
+        elif w == "C":
+            wire += [ContentType.change_cipher_spec, 3, 3, 0, 1, 1]
+        else:
+            body = I.bytes(20, "forged")
+            forged.append(body)
+            wire += [ContentType.application_data, 3, 3, 0, 20] + list(body)
+    rcv._readState.encContext.honest = \
+        [(x[0], x[1], x[2]) for x in snd._writeState.encContext.seal_log]
+    sock.inp = newbuf(wire)
+    try:
+        msg = _run_gen(conn._getMsg(ContentType.handshake,
+                                HandshakeType.finished, 32))
+        exc = None
+    except (TLSAlert, TLSAbruptCloseError) as e:
+        msg, exc = None, e
+    except (PathAbort, Unsupported):
+        raise
+    except Exception as e:
+        I.fail("_getMsg raised %s" % type(e).__name__, detail=repr(e)[:200])
+        return
+    # specification: walk the word
+    accepted = False
+    skipped = 0
+    verdict = "eof"
+    got = []
+    for w in words:
+        if w in ("A", "B"):
+            accepted = True
+            got.append(w)
+            if got == ["A", "B"]:
+                verdict = "message"
+                break
+        elif w == "F":
+            if not accepted and skipped + 20 < maxed:
+                skipped += 20
+            else:
+                verdict = "bad_record_mac"
+                break
+    sent = split_records(sock.out)
+    if verdict == "message":
+        I.check(exc is None and msg is not None and
+                bool(seq_eq(list(msg.verify_data), list(vd))),
+                "genuine-message-delivered",
+                detail=lambda: dict(exc=repr(exc)))
+    elif verdict == "bad_record_mac":
+        I.check(isinstance(exc, TLSLocalAlert) and
+                exc.description == AlertDescription.bad_record_mac,
+                "non-authenticating-record-is-fatal-once-a-record-was-"
+                "accepted-or-the-allowance-is-used-up",
+                detail=lambda: dict(exc=repr(exc), seq=shape["seq"]))
+        I.check(len(sent) >= 1 and sent[-1][0] == ContentType.alert and
+                conn.closed, "alert-sent-and-connection-closed")
+    else:
+        I.check(isinstance(exc, TLSAbruptCloseError),
+                "incomplete-message-then-eof",
+                detail=lambda: dict(exc=repr(exc)))
